@@ -197,14 +197,35 @@ func (x *Exec) trigFacts(st *State, a, s, c *Term) {
 			return
 		}
 	}
-	// sign facts by quadrant (valid for all real a in the stated range)
-	st.axiom(mkImplies(mkAnd(mkLt(zero, a), mkLt(a, pi)), mkLt(zero, s)))
-	st.axiom(mkImplies(mkAnd(mkLt(pi, a), mkLt(a, mkMul(mkRealInt(2), pi))), mkLt(s, zero)))
-	st.axiom(mkImplies(mkAnd(mkLt(mkNeg(pi), a), mkLt(a, zero)), mkLt(s, zero)))
-	st.axiom(mkImplies(mkAnd(mkLt(mkNeg(half), a), mkLt(a, half)), mkLt(zero, c)))
-	st.axiom(mkImplies(mkAnd(mkLt(half, a), mkLt(a, mkMul(mkRat(big.NewRat(3, 2), SReal), pi))), mkLt(c, zero)))
-	st.axiom(mkImplies(mkAnd(mkLt(mkMul(mkRat(big.NewRat(3, 2), SReal), pi), a), mkLt(a, mkMul(mkRat(big.NewRat(5, 2), SReal), pi))), mkLt(zero, c)))
-	st.axiom(mkImplies(mkEq(a, zero), mkAnd(mkEq(s, zero), mkEq(c, mkRealInt(1)))))
+	if !x.trigQuadrants {
+		return
+	}
+	// sign facts by quadrant (closed ranges weak, open ranges strict) and exact boundary values
+	two := mkMul(mkRealInt(2), pi)
+	th := mkMul(mkRat(big.NewRat(3, 2), SReal), pi)
+	one := mkRealInt(1)
+	mone := mkRealInt(-1)
+	in := func(lo, hi *Term) *Term { return mkAnd(mkLe(lo, a), mkLe(a, hi)) }
+	inS := func(lo, hi *Term) *Term { return mkAnd(mkLt(lo, a), mkLt(a, hi)) }
+	st.axiom(mkImplies(in(zero, pi), mkLe(zero, s)))
+	st.axiom(mkImplies(inS(zero, pi), mkLt(zero, s)))
+	st.axiom(mkImplies(in(pi, two), mkLe(s, zero)))
+	st.axiom(mkImplies(inS(pi, two), mkLt(s, zero)))
+	st.axiom(mkImplies(in(mkNeg(pi), zero), mkLe(s, zero)))
+	st.axiom(mkImplies(inS(mkNeg(pi), zero), mkLt(s, zero)))
+	st.axiom(mkImplies(in(mkNeg(half), half), mkLe(zero, c)))
+	st.axiom(mkImplies(inS(mkNeg(half), half), mkLt(zero, c)))
+	st.axiom(mkImplies(in(half, th), mkLe(c, zero)))
+	st.axiom(mkImplies(inS(half, th), mkLt(c, zero)))
+	st.axiom(mkImplies(in(th, mkMul(mkRat(big.NewRat(5, 2), SReal), pi)), mkLe(zero, c)))
+	st.axiom(mkImplies(inS(th, mkMul(mkRat(big.NewRat(5, 2), SReal), pi)), mkLt(zero, c)))
+	st.axiom(mkImplies(mkEq(a, zero), mkAnd(mkEq(s, zero), mkEq(c, one))))
+	st.axiom(mkImplies(mkEq(a, half), mkAnd(mkEq(s, one), mkEq(c, zero))))
+	st.axiom(mkImplies(mkEq(a, pi), mkAnd(mkEq(s, zero), mkEq(c, mone))))
+	st.axiom(mkImplies(mkEq(a, th), mkAnd(mkEq(s, mone), mkEq(c, zero))))
+	st.axiom(mkImplies(mkEq(a, two), mkAnd(mkEq(s, zero), mkEq(c, one))))
+	st.axiom(mkImplies(mkEq(a, mkNeg(half)), mkAnd(mkEq(s, mone), mkEq(c, zero))))
+	st.axiom(mkImplies(mkEq(a, mkNeg(pi)), mkAnd(mkEq(s, zero), mkEq(c, mone))))
 }
 
 // atan2(y, x) = th with rho*cos(th) = x, rho*sin(th) = y, -pi < th <= pi
